@@ -1,6 +1,7 @@
 package main
 
 import (
+	"strconv"
 	"sync/atomic"
 	"bytes"
 	"context"
@@ -171,6 +172,10 @@ func (e *Engine) solveOne(o *Obligation, axioms []axFact, cfg *SolverCfg, idx in
 	if o.Cover {
 		names = []string{"z3-new"}
 		timeout = 2 * time.Second
+	} else if len(names) > 1 {
+		// portfolio: quantifier instantiation in z3 4.8 is sensitive to the random seed (an obligation proved in a
+		// second under five seeds out of eight and not at all under the others was met); two more seeds of it are raced
+		names = append(append([]string{}, names...), "z3#1", "z3#2")
 	}
 	base := filepath.Join(cfg.WorkDir, fmt.Sprintf("q%05d", idx))
 	ctx, cancel := context.WithCancel(context.Background())
@@ -180,11 +185,16 @@ func (e *Engine) solveOne(o *Obligation, axioms []axFact, cfg *SolverCfg, idx in
 		n := n
 		go func() {
 			file := base + "." + n + ".smt2"
-			if err := os.WriteFile(file, []byte(e.queryText(o, axioms, cfg.Seed, n)), 0o644); err != nil {
+			sv, seed := n, cfg.Seed
+			if i := strings.IndexByte(n, '#'); i >= 0 {
+				k, _ := strconv.Atoi(n[i+1:])
+				sv, seed = n[:i], cfg.Seed+k*1000003
+			}
+			if err := os.WriteFile(file, []byte(e.queryText(o, axioms, seed, sv)), 0o644); err != nil {
 				ch <- solveOut{n, "error", err.Error(), 0}
 				return
 			}
-			cmd := solverCmd(n, file, timeout, cfg.Seed)
+			cmd := solverCmd(sv, file, timeout, seed)
 			var out bytes.Buffer
 			cmd.Stdout, cmd.Stderr = &out, &out
 			t0 := time.Now()
